@@ -80,7 +80,7 @@ func recGen() *rapid.Generator[FRec] {
 		name := rapid.StringMatching(`[!#-=?-~][!#-~]{0,11}`).Draw(t, "name")
 		desc := ""
 		if rapid.Bool().Draw(t, "hasDesc") {
-			desc = rapid.StringMatching(`[!-~]{1,8}( [!-~]{1,5})?`).Draw(t, "desc")
+			desc = rapid.StringMatching(`[!-~]{1,8}([ \t][!-~]{1,5}){0,2}`).Draw(t, "desc")
 		}
 		seq := rapid.StringMatching(`[ACGTNacgtn]{1,200}`).Draw(t, "seq")
 		if rapid.IntRange(0, 3).Draw(t, "short") == 0 {
@@ -304,6 +304,18 @@ func run(c Case, rec *h.Rec) {
 		if err != nil {
 			rec.Failf("Seq(%q): %v", r.Name, err)
 			return
+		}
+		// a handle stays what it was when another one is obtained and read
+		if L >= 2 {
+			other, err := f.SeqRange(c.Recs[(i+1)%len(c.Recs)].Name, 0, 1)
+			if err != nil {
+				rec.Failf("SeqRange of the next record: %v", err)
+				return
+			}
+			if _, msg := readAll(other, 7); msg != "" {
+				rec.Failf("SeqRange of the next record: %s", msg)
+				return
+			}
 		}
 		got, msg := readAll(sq, c.Bufs[0])
 		if msg != "" || string(got) != r.Seq {
